@@ -158,8 +158,16 @@ def catalogue(chk, tier, fns=None):
     cells = make_cells(tier, fns)
     stats = {}; crashed = []; risky = {}
     log('%d cells' % len(cells))
-    res = vf.pmap(CC.run_cell, cells, case_timeout=600)
-    account(chk, cells, res, stats, crashed, risky)
+    # batches of functions, so that the global deadline can stop the exploration between them
+    names = sorted(set(c['fn'] for c in cells))
+    for lo in range(0, len(names), 12):
+        grp = set(names[lo:lo + 12])
+        if chk.expired():
+            chk.cap('deadline: catalogue functions %s not explored' % sorted(grp)); continue
+        sub = [c for c in cells if c['fn'] in grp]
+        res = vf.pmap(CC.run_cell, sub, case_timeout=900)
+        account(chk, sub, res, stats, crashed, risky)
+        log('functions %s.. done' % names[lo])
     log('first pass done, %d crashed/risky' % len(crashed))
     # cells whose worker died or hung: split into chunks, then the first crashing chunk of a cell into single inputs
     singles = [c for c, r in crashed if c.get('_single')]
@@ -231,14 +239,17 @@ def prepare(tier):
 
 def run(tier):
     T0[0] = time.time()
-    chk = vf.Check(PROP, tier, deadline_s=900 if tier == 'quick' else 3600)
+    chk = vf.Check(PROP, tier, deadline_s=900 if tier == 'quick' else 2400)
     fns = set(os.environ['C05_ONLY'].split(',')) if os.environ.get('C05_ONLY') else None
     prepare(tier)
     if not fns:
         sweeps(chk)
     catalogue(chk, tier, fns)
     if not fns or 'rings' in fns:
-        CR.rings(chk, tier, NMAX[tier])
+        if chk.expired():
+            chk.cap('deadline: rings not explored')
+        else:
+            CR.rings(chk, tier, NMAX[tier])
     chk.assumptions += [
         'values: declared alphabets (ref/arith_catalogue.py num_full/num_core/moduli/elems/red_inputs), not all 2^(64n) operands; lengths, aliasings, editions, moduli classes are enumerated completely',
         'cross product: complete over all operands while it has at most %d tuples (always for lengths <= 2 of binary functions), otherwise pairwise-full / one-operand-full against the core alphabet of the others' % CC.LIMIT[tier][0],
